@@ -338,6 +338,14 @@ def random_gw(rng, start, end):
         if rng.random() < 0.5:
             dates.append((ds[-1] + pd.Timedelta(days=int(rng.integers(1, 200)))).strftime("%Y-%m-%d"))
             vals.append(float(rng.choice([0.4, 1.0, 2.5])))
+    if k >= 2 and len(dates) > 1 and rng.random() < 0.5:
+        # an interpolated record whose observations do not stop at the simulated period: one before the start (in
+        # place of the one on the first day) and/or one after the end
+        if rng.random() < 0.6:
+            dates[0] = (ds[0] - pd.Timedelta(days=int(rng.integers(1, 300)))).strftime("%Y-%m-%d")
+        if rng.random() < 0.7:
+            dates.append((ds[-1] + pd.Timedelta(days=int(rng.integers(1, 300)))).strftime("%Y-%m-%d"))
+            vals.append(float(rng.choice([0.4, 1.0, 2.5, 4.0])))
     return {"water_table": "Y", "method": "Constant" if k == 1 else "Variable", "dates": dates,
             "values": vals}
 
@@ -503,6 +511,9 @@ QUICK_STRATA = [
     dict(crop="Wheat", station="tunis_climate.txt", irr_method=0, soil="Loam", soil_kind="builtin", n_seasons=2,
          start_mode="after", off_season=False, planting="10/15",
          co2={"constant": False, "series": [[1900, 300.0], [1975, 330.0], [1980, 380.0], [1985, 460.0], [1990, 540.0], [2100, 700.0]]}),
+    # an interpolated ("Variable") water-table record with observations on both sides of the simulated period
+    dict(crop="Wheat", station="tunis_climate.txt", irr_method=0, soil="SandyLoam", soil_kind="builtin", n_seasons=1,
+         start_mode="before", off_season=True, gw_spec={"method": "Variable", "offsets": [-80, 70, 900], "values": [2.2, 1.1, 2.6]}),
     # a stepwise ("Constant") water-table record that begins before the simulated period
     dict(crop="Barley", station="brussels_climate.txt", irr_method=0, soil="Loam", soil_kind="builtin", n_seasons=1,
          start_mode="before", off_season=True, gw_spec={"method": "Constant", "offsets": [-47, 60, 170], "values": [1.5, 0.9, 2.0]}),
